@@ -525,4 +525,8 @@ def main():
 
 
 if __name__ == '__main__':
-    sys.exit(main())
+    # two runs of the same property share build/<pid>/ (harness binary, driver copy, run directories): serialise them
+    _pid = sys.argv[1] if len(sys.argv) > 1 else 'none'
+    with Lock('check_%s.lock' % _pid):
+        rc = main()
+    sys.exit(rc)
